@@ -139,8 +139,13 @@ func NewLockAnalysis(m *Module, sl *Slicer, pkgs ...string) *LockAnalysis {
 				if callee != nil && la.inPkg[callee] {
 					la.callers[callee] = append(la.callers[callee], x)
 				}
-				// function values passed as arguments escape
-				for _, a := range x.Call.Args {
+				// function values passed as arguments escape — unless the callee only calls them synchronously
+				for i, a := range x.Call.Args {
+					if mc, ok := strip(a).(*ssa.MakeClosure); ok && callee != nil && la.inPkg[callee] && i < len(callee.Params) && syncOnlyParam(callee, i, map[*ssa.Function]bool{}) {
+						h := mc.Fn.(*ssa.Function)
+						la.callers[h] = append(la.callers[h], x)
+						continue
+					}
 					la.markEscape(a)
 				}
 			case *ssa.Go:
@@ -348,3 +353,44 @@ func (la *LockAnalysis) sectionOf(instr ssa.Instruction, f *types.Var) ssa.Instr
 }
 
 var _ = token.NoPos
+
+
+// syncOnlyParam: the func-typed parameter idx of fn is only ever called, or handed to the same
+// position of a callee that only calls it (a synchronous callback such as an enumeration visitor).
+func syncOnlyParam(fn *ssa.Function, idx int, seen map[*ssa.Function]bool) bool {
+	if seen[fn] {
+		return true
+	}
+	seen[fn] = true
+	p := fn.Params[idx]
+	refs := p.Referrers()
+	if refs == nil {
+		return true
+	}
+	for _, r := range *refs {
+		c, ok := r.(*ssa.Call)
+		if !ok {
+			return false
+		}
+		if c.Call.Value == ssa.Value(p) {
+			continue
+		}
+		callee := staticCallee(&c.Call)
+		if callee == nil || callee.Blocks == nil {
+			return false
+		}
+		okArg := false
+		for j, a := range c.Call.Args {
+			if a == ssa.Value(p) {
+				if j >= len(callee.Params) || !syncOnlyParam(callee, j, seen) {
+					return false
+				}
+				okArg = true
+			}
+		}
+		if !okArg {
+			return false
+		}
+	}
+	return true
+}
